@@ -789,8 +789,8 @@ func genQuery(r *hlib.Rng) (*dns.Msg, string) {
 		qt = uint16(256 + r.Intn(1000))
 	}
 	qc := uint16(dns.ClassINET)
-	if r.Chance(1, 20) {
-		qc = []uint16{dns.ClassCHAOS, dns.ClassANY, dns.ClassNONE}[r.Intn(3)]
+	if r.Chance(1, 20) || (qt == dns.TypeANY && r.Chance(1, 3)) {
+		qc = []uint16{dns.ClassCHAOS, dns.ClassHESIOD, dns.ClassNONE, dns.ClassANY}[r.Intn(4)]
 	}
 	m.Question = []dns.Question{{Name: name, Qtype: qt, Qclass: qc}}
 	m.RecursionDesired = r.Chance(1, 2)
@@ -1068,6 +1068,37 @@ func run(a *hlib.Args, e *hlib.Emitter) error {
 		}
 	}
 	if a.Replay == "" {
+		// always part of a run: ANY questions in every class other than IN for names
+		// that exist in the database, on every refuse-any configuration, over both
+		// transports (the ANY handler looks at the type only)
+		anyNames := []string{"one.c20.test.", "big.c20.test.", "c20.test.", "whoami.c20.test.", "Four.C20.test."}
+		k := 0
+		for _, conf := range ru.confs {
+			if !conf.RefuseAny {
+				continue
+			}
+			for _, qc := range []uint16{dns.ClassCHAOS, dns.ClassHESIOD, dns.ClassNONE, dns.ClassANY} {
+				m := new(dns.Msg)
+				m.Id = uint16(7000 + k)
+				m.RecursionDesired = k%2 == 0
+				m.Question = []dns.Question{{Name: anyNames[k%len(anyNames)], Qtype: dns.TypeANY, Qclass: qc}}
+				if k%3 == 0 {
+					o := new(dns.OPT)
+					o.Hdr.Name = "."
+					o.Hdr.Rrtype = dns.TypeOPT
+					o.SetUDPSize(1232)
+					m.Extra = append(m.Extra, o)
+				}
+				w, err := m.Pack()
+				if err != nil {
+					return err
+				}
+				ip := fmt.Sprintf("127.0.0.%d", 1+k%4)
+				addPlan(conf, plan{class: "any-class", ip: ip, proto: "udp", wire: w})
+				addPlan(conf, plan{class: "any-class", ip: ip, proto: "tcp", wire: w})
+				k++
+			}
+		}
 		// cache configurations (opt-in): the same address query on the max-answer-1
 		// listener first and on the max-answer-4 listener afterwards
 		for _, conf := range ru.confs {
